@@ -219,7 +219,12 @@ def build_class(case, sm_mod, log, clock, scripts_abs):
         else:
             (ns_base if i < case["split"] else ns_sub)[sname(i)] = make_fn(i)
     _uid[0] += 1
-    if ns_sub:
+    if ns_sub and case.get("diamond"):
+        Root = type("GenRoot%d" % _uid[0], (base,), ns_base)
+        B = type("GenBase%d" % _uid[0], (Root,), ns_sub)
+        Other = type("GenOther%d" % _uid[0], (Root,), {})
+        C = type("Gen%d" % _uid[0], (B, Other), dict(_sm_call=_sm_call, next_state=next_state, done=done))
+    elif ns_sub:
         B = type("GenBase%d" % _uid[0], (base,), ns_base)
         ns_sub.update(dict(_sm_call=_sm_call, next_state=next_state, done=done))
         C = type("Gen%d" % _uid[0], (B,), ns_sub)
@@ -885,6 +890,9 @@ def decorate(case, r):
                 d.update(timed=True, dur=r.choice([0, 1, 2, 64]), next=r.choice([None, case["first"], i]))
             decoys[str(i)] = d
         case["decoys"] = decoys
+        # the class that re-declares the states may be one branch of a diamond (class M(Redeclares, Other) with both
+        # deriving from the class that holds the first declarations): the MRO puts Redeclares before the common base
+        case["diamond"] = len(case["hist"]) % 3 == 0
     timed = [i for i in range(n) if st[str(i)]["timed"]]
     if timed and r.random() < 0.25:
         case["predur"] = {str(i): r.choice([0, 1, 3, 5, 16, 40]) for i in timed if r.random() < 0.6}
